@@ -306,10 +306,14 @@ fn brotli(level: u32, d: &[u8]) -> Vec<u8> {
 /// a format-conforming archive of `src` written by the harness' own encoder with every freedom of the format
 pub fn conforming_archive(rng: &mut Rng, src: &[u8]) -> (Vec<u8>, Dict) {
     // arbitrary chunk boundaries
+    // (a quarter of the archives: chunks of one size, stored as they are, back to back -- in descending, ascending or
+    // shuffled order; with equal stored sizes a chunk can lie exactly one chunk size BELOW the one before it)
+    let equal = rng.chance(1, 4);
+    let eq_len = rng.range(8, 300) as usize;
     let mut chunks: Vec<Vec<u8>> = vec![];
     let mut p = 0;
     while p < src.len() {
-        let l = (rng.range(1, 700) as usize).min(src.len() - p);
+        let l = (if equal { eq_len } else { rng.range(1, 700) as usize }).min(src.len() - p);
         chunks.push(src[p..p + l].to_vec());
         p += l;
     }
@@ -327,15 +331,16 @@ pub fn conforming_archive(rng: &mut Rng, src: &[u8]) -> (Vec<u8>, Dict) {
     // stored form per chunk
     let mut any_comp = false;
     let stored: Vec<Vec<u8>> = uniq.iter().map(|u| {
-        if rng.chance(1, 2) { let c = crate::archive::codec_compress(ctype, level, u); if c.len() != u.len() { any_comp = true; c } else { u.clone() } } else { u.clone() }
+        if !equal && rng.chance(1, 2) { let c = crate::archive::codec_compress(ctype, level, u); if c.len() != u.len() { any_comp = true; c } else { u.clone() } } else { u.clone() }
     }).collect();
     // placement: permuted, with gaps
     let mut perm: Vec<usize> = (0..uniq.len()).collect();
-    if rng.chance(2, 3) { for i in (1..perm.len()).rev() { let j = rng.below(i as u64 + 1) as usize; perm.swap(i, j); } }
+    if equal && rng.chance(1, 2) { perm.reverse(); }
+    else if rng.chance(2, 3) { for i in (1..perm.len()).rev() { let j = rng.below(i as u64 + 1) as usize; perm.swap(i, j); } }
     let mut data: Vec<u8> = vec![];
     let mut offs = vec![0u64; uniq.len()];
     for i in perm {
-        let gap = if rng.chance(1, 3) { 40 } else { 1 };
+        let gap = if equal { 1 } else if rng.chance(1, 3) { 40 } else { 1 };
         for _ in 0..rng.below(gap) { data.push(rng.next() as u8); }
         offs[i] = data.len() as u64;
         data.extend_from_slice(&stored[i]);
